@@ -97,7 +97,7 @@ class C22(Check):
             "streak, deck, never) and field selection (all fields, one field, two loggees), writer framers before and after the "
             "logger in the tick order applying a seeded history of share updates with same and different values, field-only "
             "changes, several updates per tick, list appends and deck pushes; the file on the simulated disk is compared with "
-            "what the rule promises given the trace of writes and logger runs in execution order; non-trivial = an update "
+            "what the rule promises given the trace of writes and logger runs in execution order; variations: logger stopped and started again, a reused directory holding an empty or a started file (with and without rotation), the logger as a slave run and stopped by fiats in one tick; non-trivial = an update "
             "landed after the logger in a tick in which the logger ran; distinct = digest of (rule, history, file)")
     components = dict(COMPONENTS)
     components["real"] = COMPONENTS["real"] + ["ioflo.base.logging.Logger / Log", "ioflo.aid.filing.ocfn"]
